@@ -6,6 +6,8 @@ package remote
 // streamReader.Receive resolves it into SendLocal calls that land in recording processes.
 
 import (
+	"google.golang.org/protobuf/reflect/protoregistry"
+	"google.golang.org/protobuf/reflect/protoreflect"
 	"context"
 	"encoding/hex"
 	"fmt"
@@ -470,16 +472,35 @@ func vDescribe(e *Envelope) string {
 		dz := "-"
 		if x.TypeNameIndex >= 0 && int(x.TypeNameIndex) < len(e.TypeNames) {
 			dz = "0"
-			func() {
-				defer func() { _ = recover() }() // a panicking deserialiser counts as "rejects" here; the reader run below shows the panic
-				if _, err := (ProtoSerializer{}).Deserialize(x.Data, e.TypeNames[x.TypeNameIndex]); err == nil {
-					dz = "1"
-				}
-			}()
+			if vIndependentDecode(x.Data, e.TypeNames[x.TypeNameIndex]) != nil {
+				dz = "1"
+			}
 		}
 		m = append(m, fmt.Sprintf("%d:%d:%d:%s", x.TypeNameIndex, x.SenderIndex, x.TargetIndex, dz))
 	}
 	return fmt.Sprintf("tn=%s G=%s S=%s msgs=%s", strings.Join(tn, "."), strings.Join(g, "."), strings.Join(s, "."), strings.Join(m, ","))
+}
+
+// vIndependentDecode is the decodability oracle, independent of remote/serialize.go: the type name must be EXACTLY the
+// full name of a message registered in the global proto registry and the bytes must unmarshal into a fresh instance.
+func vIndependentDecode(data []byte, tname string) (m proto.Message) {
+	defer func() {
+		if recover() != nil {
+			m = nil
+		}
+	}()
+	if !protoreflect.FullName(tname).IsValid() {
+		return nil
+	}
+	mt, err := protoregistry.GlobalTypes.FindMessageByName(protoreflect.FullName(tname))
+	if err != nil {
+		return nil
+	}
+	msg := mt.New().Interface()
+	if err := proto.Unmarshal(data, msg); err != nil {
+		return nil
+	}
+	return msg
 }
 
 func runHostile(t testing.TB, e *Envelope) string {
@@ -507,12 +528,44 @@ func runHostile(t testing.TB, e *Envelope) string {
 		}
 		ss[i] = hxPid(d.target) + ":" + tname + ":" + hxPid(d.sender)
 	}
-	return "out=" + out + ";dl=" + strings.Join(ss, ",")
+	// content: what a target holds must be what SOME message of this envelope addressed to it says (decoded independently):
+	// nothing left over from another message, another stream or another peer
+	bad := 0
+	for _, d := range vTheLog.dls {
+		pm, isProto := d.msg.(proto.Message)
+		if !isProto {
+			bad++
+			continue
+		}
+		ok := false
+		for _, x := range e.Messages {
+			if x == nil || x.TypeNameIndex < 0 || int(x.TypeNameIndex) >= len(e.TypeNames) || x.TargetIndex < 0 || int(x.TargetIndex) >= len(e.Targets) {
+				continue
+			}
+			if tg := e.Targets[x.TargetIndex]; tg == nil || d.target == nil || tg.ID != d.target.ID {
+				continue
+			}
+			if want := vIndependentDecode(x.Data, e.TypeNames[x.TypeNameIndex]); want != nil && proto.Equal(want, pm) {
+				ok = true
+				break
+			}
+		}
+		if !ok {
+			bad++
+		}
+	}
+	content := "ok"
+	if bad > 0 {
+		content = fmt.Sprintf("BAD(%d)", bad)
+	}
+	return "out=" + out + ";content=" + content + ";dl=" + strings.Join(ss, ",")
 }
 
 // includes names that are registered in the global proto registry but are not messages (an enum, a nested enum)
 var vTypeNamePool = []string{"actor.PID", "remote.TestMessage", "actor.Ping", "nope.Missing", "",
-	"google.protobuf.FieldDescriptorProto.Type", "google.protobuf.Edition", "remote.Remote"}
+	"google.protobuf.FieldDescriptorProto.Type", "google.protobuf.Edition", "remote.Remote",
+	// not names of registered messages, although a suffix is: a type URL, a leading slash, a trailing dot
+	"type.googleapis.com/actor.PID", "/remote.TestMessage", "evil.example/remote.TestMessage", "actor.PID."}
 
 func vDataChoice(k int) []byte {
 	switch k {
